@@ -703,8 +703,14 @@ func ExecutePlan(plan *Plan, p ExecuteParams) (result *Result) {
 	resultChannel := make(chan *Result, 2)
 	go func() {
 		out := &Result{}
+		var eCtx *executionContext
 		defer func() {
 			if err := recover(); err != nil {
+				// A failure that nulls the whole response does not
+				// erase the field errors reported before it.
+				if eCtx != nil {
+					out.Errors = append(out.Errors, eCtx.Errors...)
+				}
 				if e, ok := err.(error); ok {
 					out.Errors = append(out.Errors, gqlerrors.FormatError(e))
 				} else {
@@ -727,7 +733,7 @@ func ExecutePlan(plan *Plan, p ExecuteParams) (result *Result) {
 			return
 		}
 
-		eCtx := &executionContext{
+		eCtx = &executionContext{
 			Schema:         execSchema,
 			Fragments:      plan.fragments,
 			Root:           p.Root,
